@@ -6,37 +6,85 @@ from hypothesis import strategies as st
 from vp import gen, refop
 from vp.framework import Violation
 
-RULE = ("Grids with 2..6 cells per direction (uniform/stretched/random "
-        "widths), four anisotropy cases, optional mu_r, frequency or Laplace, "
-        "induction-number regime drawn; line-relaxation code 0..7 and sweep "
-        "count 1..6 through solver.smoothing (and the kernels' py_func on a "
+RULE = ("Grids with 2..6 cells per direction, or one long axis of 7..32 cells "
+        "with 2..3 in the others (uniform/stretched/random "
+        "widths), four anisotropy cases, optional mu_r and epsilon_r (eta with "
+        "real and imaginary part), frequency or Laplace, "
+        "induction-number regime drawn; field and source amplitudes 1e-30.."
+        "1e30 independently, sources with or without entries on boundary "
+        "edges; line-relaxation code 0..7 (int or numpy integer) and sweep "
+        "count 1..6 mostly, also 0, 7, 8, 11 and 50/51 (grids <= 4 cells), "
+        "through solver.smoothing (and the kernels' py_func on a "
         "sub-sample).  Oracles against the checker's assembled operator: "
         "(i) exact solution is a fixed point (residual form), (ii) after "
         "smoothing from a random start a block of the relaxed type has zero "
-        "residual, (iii) affinity in (field, source), (iv) boundary edges "
+        "residual (nu=0: field bit-unchanged), (iii) affinity in (field, "
+        "source) with real or complex weight, (iv) boundary edges "
         "never written, (v) two-cell directions are dropped from the line "
         "code, (vii) an end block of the documented lexicographic order "
         "has zero residual and nu=2 followed "
-        "by nu=b equals nu=2+b; (vi) core.solve on random complex-symmetric 11-diagonal "
-        "systems == dense solve.  Non-trivial = non-uniform widths, "
+        "by nu=b equals nu=2+b; (viii) the result of one kernel equals a "
+        "checker-side block Gauss-Seidel (LU per block from the assembled "
+        "operator) of nu alternating sweeps over ALL blocks in lexicographic "
+        "order, first sweep ascending or descending and, for lines, either "
+        "nesting of the two remaining indices accepted, but the same "
+        "orientation for the drawn kernel at nu and a second drawn kernel at "
+        "nu 1..3; (ix) a combined line code is bit-identical to the calls "
+        "for its single directions in x, y, z order; "
+        "(vi) core.solve on random complex-symmetric 11-diagonal "
+        "systems (pivots positive / within +-1.2 rad, or of any sign / "
+        "phase) == dense solve.  Non-trivial = non-uniform widths, "
         "heterogeneous model, >=2 blocks; distinct by (shape, lr, nu, seeds).")
 ASSUMPTIONS = [
     "reference operator vp/refop.py; rounding floor 1e-10 relative to "
     "|A||e|+|s| per row (measured <= 4e-16 on the pinned tree)",
+    "(viii) tolerance 1e-9 in the residual form |A d| <= tol (|A|(|e|+|e_ref|)"
+    " + |s|) (measured <= 3e-14 for the matching convention); which sweep "
+    "is 'forward' is not fixed by the docstrings (the code's first sweep "
+    "descends), only that odd counts mean the same for every kernel; after "
+    "many sweeps or with weakly coupled blocks several conventions match "
+    "and the orientation part is vacuous (class orientation_decided_both "
+    "counts the decided cases)",
+    "(ix) and (ii) assume the order x, y, z of the dispatch in "
+    "solver.smoothing and that each direction runs all its nu sweeps",
+    "(vii) assumes every call starts with the same (odd = 'forward') sweep",
+    "epsilon_r in the frequency domain only while omega^2 mu eps h_max^2 "
+    "<= 0.05 (no local or global resonance; otherwise the case runs "
+    "without epsilon_r, class epsr_dropped_wave_term); stretching factor "
+    "<= 1.1 on the long axes",
+    "nu=0 is taken to mean 'no sweep' (reachable through nu_coarse=0)",
 ]
 SHARDS = {'quick': 1, 'thorough': 16}
 
 LR_DIRS = {0: '', 1: 'x', 2: 'y', 3: 'z', 4: 'yz', 5: 'xz', 6: 'xy',
            7: 'xyz'}
 LR_CODE = {v: k for k, v in LR_DIRS.items()}
-# measured headroom of oracle (viii): largest accepted / smallest rejected
-# scaled difference (diagnostic only, never read by an oracle)
-_STATS = {'ref_floor': 0.0, 'ref_gap': np.inf}
+# largest scaled difference to the best-matching convention seen by oracle
+# (viii) (diagnostic for the rounding floor, never read by an oracle)
+_STATS = {'ref_floor': 0.0}
+
+
+def _long_grid_spec():
+    """One long axis (line systems of up to 5*32-4 unknowns, many block rows
+    in blocks_to_amat, odd and even counts), two short ones; the stretching
+    factor is limited to 1.1 so that the width ratio along 32 cells stays
+    within the range the rounding floors were measured for."""
+    base = gen.grid_spec([[7, 8, 9, 12, 17, 32], [2, 3], [2, 3]])
+
+    def rot(t):
+        g, r = t
+        n = list(g['n'])
+        return dict(g, n=n[-r:] + n[:-r] if r else n,
+                    fac=1.0 + 0.2*(g['fac'] - 1.0))
+    return st.tuples(base, st.integers(0, 2)).map(rot)
 
 
 def smooth_spec():
     return st.fixed_dictionaries({
-        'grid': gen.grid_spec([2, 3, 4, 5, 6]),
+        'grid': st.one_of(gen.grid_spec([2, 3, 4, 5, 6]),
+                          gen.grid_spec([2, 3, 4, 5, 6]),
+                          gen.grid_spec([2, 3, 4, 5, 6]),
+                          _long_grid_spec()),
         'model': gen.model_spec(),
         'freq': gen.freq_spec(),
         'lr': st.integers(0, 7),
@@ -423,7 +471,7 @@ def case_smooth(spec, rec):
     # forward/backward do not fix it), for lines either nesting of the two
     # remaining indices; but the SAME orientation for every kernel and nu.
     nrows = A.shape[0]
-    if 'xk' in spec and nrows <= 1200 and iint.size:
+    if 'xk' in spec and nrows <= 1500 and iint.size:
         Ad = A.toarray()
 
         def conventions(kern, e0, sfld, eout, nsw):
@@ -443,13 +491,9 @@ def case_smooth(spec, rec):
                     w.append(float(r.max()))
                     if w[-1] <= 1e-9:
                         ok.add(desc)
-                        if nsw <= 3:
-                            _STATS['ref_floor'] = max(_STATS['ref_floor'],
-                                                      w[-1])
                         break
-                    if nsw <= 3:
-                        _STATS['ref_gap'] = min(_STATS['ref_gap'], w[-1])
                 worst.append(min(w))
+            _STATS['ref_floor'] = max(_STATS['ref_floor'], min(worst))
             return ok, min(worst)
 
         def run(kern, nsw, salt, what):
@@ -511,6 +555,10 @@ def case_smooth(spec, rec):
                                      'huge' if lg > 10 else 'scaled'))
     if pyf:
         rec.cls('pyfunc')
+    if max(shape) >= 7:
+        rec.cls('long_axis', f"long_axis={max(shape)}",
+                'long_axis_relaxed' if 'xyz'[int(np.argmax(shape))] in dirs
+                else 'long_axis_not_relaxed')
     if kind != 'uniform' and het and nblocks >= 2:
         rec.nt([list(shape), int(lr), nu, spec['grid']['seed'],
                 spec['model']['seed']])
@@ -525,6 +573,9 @@ def solve_spec():
         'complex': st.booleans(),
         'seed': gen.SEED,
         'lgscale': st.floats(-6, 6),
+        # pivots of either sign (real) / of any phase (complex); the
+        # factorisation has no square root and no pivoting, L stays bounded
+        'dsign': st.booleans(),
         'pyfunc': st.integers(0, 7).map(lambda k: k == 0),
     })
 
@@ -548,6 +599,10 @@ def case_solve(spec, rec):
     mag = rng.uniform(0.5, 2, size=n)
     ph = np.exp(1j*rng.uniform(-1.2, 1.2, size=n)) if cplx else np.where(
         rng.random(n) < 0.5, 1.0, 1.0)
+    if spec.get('dsign', False):
+        r2 = gen.rng_of(spec['seed'], 62)
+        ph = (np.exp(1j*r2.uniform(-np.pi, np.pi, size=n)) if cplx else
+              np.where(r2.random(n) < 0.5, 1.0, -1.0))
     D = mag*ph*10.0**spec['lgscale']
     Ad = (L*D[None, :]) @ L.T
     b = rnd(n)
@@ -567,6 +622,7 @@ def case_solve(spec, rec):
                         f"n={n}: rel error {err:.2e}, scaled residual "
                         f"{res:.2e}")
     rec.cls(f"complex={cplx}", f"pyfunc={spec['pyfunc']}",
+            f"any_sign_or_phase={bool(spec.get('dsign', False))}",
             'n<=5' if n <= 5 else ('n=6' if n == 6 else 'n>6'))
     if n > 6:
         rec.nt(['solve', n, cplx, spec['seed']])
